@@ -502,6 +502,7 @@ fn init_attacks_writes(rook: bool) {
 }
 
 //@ obligation: C07.tables.rook_init_writes
+//@ status: experimental
 //@ domain: complete
 //@ functions: chess/movegen/tables/magics.rs::initialise_rook_attacks
 //@ timeout: 1500
@@ -519,6 +520,7 @@ fn vk_c07_rook_init_writes() {
 }
 
 //@ obligation: C07.tables.bishop_init_writes
+//@ status: experimental
 //@ domain: complete
 //@ functions: chess/movegen/tables/magics.rs::initialise_bishop_attacks
 //@ timeout: 1500
@@ -568,6 +570,7 @@ fn index_is_j(_s: Square, _b: Bitboard) -> usize {
 }
 
 //@ obligation: C07.tables.lookups_read_index
+//@ status: experimental
 //@ domain: complete
 //@ functions: chess/movegen/tables/magics.rs::rook_attacks, chess/movegen/tables/magics.rs::bishop_attacks
 //@ timeout: 900
